@@ -167,8 +167,10 @@ def run(ctx):
         ok = False
         for b, i, st in asg:
             term = og.of_rvalue(st["rv"])
-            ok = term.k == "agg" and term.a[0].endswith("Option::Some") and any(x.k == "param" and x.a[0] == 2 for x in A.walk(term))
-        ctx.ob("R-C18.2", fn, "builder-stores-user-assigner", ok, "config.compaction_filter_factory_assigner := Some(f)" if ok else "the builder does not store the user's assigner")
+            wrapped = [x for x in A.walk(term) if x.k in ("closure", "call", "bin")]
+            ok = term.k == "agg" and term.a[0].endswith("Option::Some") and any(x.k == "param" and x.a[0] == 2 for x in A.walk(term)) and not wrapped
+        ctx.ob("R-C18.2", fn, "builder-stores-user-assigner", ok, "config.compaction_filter_factory_assigner := Some(f)" if ok
+               else "the builder does not store the user's assigner unchanged (it is wrapped / replaced): a keyspace can get another factory than the one the user's function assigns to its name (e.g. factories interned by their logging name)")
     for fid, fn in F.fns.items():
         for b, i, st in A.field_assigns(fn, "compaction_filter_factory_assigner"):
             if "builder::Builder" not in fid:
@@ -217,34 +219,8 @@ def run(ctx):
 
     # ---- R-C18.3 "staying filtered once observed": journal replay must not resurrect a record the tree has already
     # persisted — the persisted copy may since have been removed / replaced by the compaction filter, the journal copy has not.
-    # Necessary condition: every replay apply site is guarded by a test of the record's seqno against the tree's
-    # get_highest_persisted_seqno() (or the record is run through the filter again).
-    n = 0
-    for fid in ("db::Database::recover", "recovery::recover_sealed_memtables"):
-        fn = ctx.fn(fid, "R-C18.3")
-        if not fn:
-            continue
-        og = ctx.og(fn)
-        applies = [b for b, t in fn.calls() if A.is_call_to(t, R.APPLY_ANY) and A.cname(t).rsplit("::", 1)[-1] in ("insert", "remove", "remove_weak") and A.in_cycle(fn, b)]
-        if not applies:
-            ctx.ob("R-C18.3", fn, "replay-apply-sites-present", False, "%s no longer applies journal records" % fid, kind="anchor")
-            continue
-        n += len(applies)
-        unguarded = []
-        for ab in applies:
-            guarded = False
-            for sb, blk in enumerate(fn.blocks):
-                if blk["t"]["k"] != "switch" or blk["cleanup"] or not A.dominates(fn, sb, ab) or not A.in_cycle(fn, sb):
-                    continue
-                cond = og.of_operand(blk["t"]["d"])
-                if any(x.k == "call" and x.a[0].endswith("::get_highest_persisted_seqno") for x in A.walk(cond)):
-                    guarded = True
-            refiltered = any("compaction::filter" in A.cname(t) or "CompactionFilter" in A.cname(t) for b, t in fn.calls() if A.dominates(fn, b, ab))
-            if not (guarded or refiltered):
-                unguarded.append(ab)
-        ok = not unguarded
-        ctx.ob("R-C18.3", fn, "replay-skips-records-already-persisted", ok,
-               "every replayed record is applied only if it is newer than what the tree has persisted (or is filtered again)" if ok
-               else "journal replay re-applies records the tree has already persisted (%d apply site(s) with no persisted-seqno guard): an item a compaction filter removed or replaced, and that was observed in filtered form, is back in its original form after a reopen while its record is still in a journal" % len(unguarded),
-               fn.loc(unguarded[0]) if unguarded else "")
-    ctx.floor("R-C18.3", "journal replay apply sites", n, 6)
+    # Necessary: every replay apply site is guarded by a test of the record's seqno against a persisted watermark of the
+    # tree (shared with C04: R-C04.5), and that watermark must not be one the filter itself can lower: the maximum over the
+    # CURRENT tables (get_highest_persisted_seqno) drops when the filter removes the newest persisted item.
+    from . import C04
+    C04.replay_guard(ctx, "R-C18.3", kinds=("items",), monotone=True)
